@@ -436,6 +436,7 @@ def check_C14(ctx, rep):
     models.check_make_total(ctx, rep, P('dfa_algorithms.dfa_make_total_in_place'))
     _fresh_in(ctx, rep, ['dfa_algorithms.dfa_make_total_in_place', 'dfa_algorithms.dfa_reverse'], providers=['dfa_algorithms.fresh_state'])
     _eps_in(ctx, rep, ['dfa_algorithms.dfa_reverse', 'dfa_algorithms.dfa_no_prefix'])
+    bound.check_enumerator(ctx, rep, P('language_algorithms.words_up_to_n'))
     models.check_prefix_helper(ctx, rep, P('language_algorithms.language_no_prefix'))
     models.check_no_extend_helper(ctx, rep, P('language_algorithms.language_no_extend'))
     work.check_level_search(ctx, rep, ctx.prog.func('dfa_algorithms.dfa_reachable_states'))
@@ -535,7 +536,27 @@ def check_C20(ctx, rep):
     _effect_on(ctx, rep, ['dfa_algorithms.dfa_isomorphic', 'dfa_algorithms.dfa_isomorphic1'], shared=False)
 
 
+_MODULES_OF = {
+    'C04': ['dfa_algorithms'], 'C07': ['cfg_algorithms', 'cfg'], 'C08': ['cfg_algorithms', 'cfg'], 'C09': ['pda_algorithms'], 'C10': ['pda_algorithms'],
+    'C11': ['tm_algorithms'], 'C14': ['dfa_algorithms', 'language_algorithms'], 'C15': ['dfa_algorithms', 'nfa_algorithms', 'pda_algorithms', 'cfg_algorithms'],
+    'C20': ['dfa_algorithms'], 'C16': ['dfa_algorithms', 'nfa_algorithms', 'pda_algorithms', 'tm_algorithms', 'cfg_algorithms', 'regexp'],
+    'C17': ['automaton_algorithms', 'dfa_algorithms', 'nfa_algorithms', 'pda_algorithms', 'tm_algorithms'],
+}
+
+
+def _with_hidden_state(pid, fn):
+    def wrapped(ctx, rep):
+        fn(ctx, rep)
+        mods = _MODULES_OF.get(pid)
+        if mods and not any(i.rule == 'R-STATE.c' for i in rep.instances) and 'hidden_state_inventory' not in rep.extra:
+            state.check_hidden_state(ctx, rep, modules=mods)
+            rep.clauses_decided.append('no cross-call memo (module-level container, memoising decorator, mutable default) feeds the operations of this property (R-STATE c)')
+    return wrapped
+
+
 REGISTRY = {
     'C01': check_C01, 'C02': check_C02, 'C03': check_C03, 'C04': check_C04, 'C05': check_C05, 'C06': check_C06, 'C07': check_C07, 'C08': check_C08, 'C09': check_C09, 'C10': check_C10,
     'C11': check_C11, 'C12': check_C12, 'C13': check_C13, 'C16': check_C16, 'C17': check_C17, 'C14': check_C14, 'C15': check_C15, 'C18': check_C18, 'C19': check_C19, 'C20': check_C20,
 }
+
+REGISTRY = {k: _with_hidden_state(k, v) for k, v in REGISTRY.items()}
